@@ -181,6 +181,20 @@ Theorem C02_assert_promotion_refuted :
 Proof. exact assert_promotion_refuted. Qed.
 Print Assumptions C02_assert_promotion_refuted.
 
+Theorem C02_generic_pattern_negative_refuted :
+  exists V c pol o, wf_obj o = true /\ cond_ok c o = true /\ member o V = true /\ holds c o = Some pol /\
+    generic_pattern_negative c o = true /\ member o (narrow V c pol) = false.
+Proof. exact generic_pattern_negative_refuted. Qed.
+Print Assumptions C02_generic_pattern_negative_refuted.
+
+(* after the repair of _deliteral: TypeIs[list[str]] on x: list[int] keeps the empty list *)
+Example C02_generic_typeis_positive :
+  narrow [plain (VGen (GList TIntE))] (CTypeIs [VGen (GList TStrE)]) true = [plain (VGen (GList TStrE))] /\
+  c02_guard (CTypeIs [VGen (GList TStrE)]) (OList []) = true /\
+  holds (CTypeIs [VGen (GList TStrE)]) (OList []) = Some true.
+Proof. exact generic_typeis_positive. Qed.
+Print Assumptions C02_generic_typeis_positive.
+
 (* match statements: `case [a, b, *rest]` on a union of tuples of different lengths keeps exactly
    the tuples that can match, and the object that matches is covered by the main theorem *)
 Example C02_match_seq_example :
